@@ -1,6 +1,6 @@
 """C06 — An upload commits only if every integrity assertion holds (DESIGN.md §7 C06)."""
 import base64, binascii, hashlib, json, struct
-from vlib import common, coq, gobuild, ocamlbuild, chunkenc, gw, s3c
+from vlib import common, coq, gobuild, ocamlbuild, chunkenc, gw, s3c, e2e
 
 THEOREMS = ["C06_commit_exact", "C06_failure_preserves", "C06_signed_commit_chain"]
 TARGETS = ["Properties/C06.vo"]
@@ -79,7 +79,7 @@ def run(chk):
                 "unsigned aws-chunked with CRC trailer, signed aws-chunked, signed with trailer) with optional Content-MD5 and one "
                 "x-amz-checksum-* header (all five algorithms), bodies of 0..100000 bytes, and one corruption (flipped data byte, wrong "
                 "declared digest / chunk signature / trailer checksum / trailer signature, truncation after a chunk, extra chunk, declared "
-                "decoded length larger or smaller) or none, on a key that is absent or holds old content; non-trivial when >= 2 chunks or "
+                "decoded length larger or smaller) or none, on a key that is absent or holds old content with its own content type and user metadata (the state compared is bytes, ETag, content type and user metadata together), in the xattr and the sidecar metadata store; non-trivial when >= 2 chunks or "
                 "a corruption is present; distinct by content.")
     gwbin = gobuild.build_gateway("verif")
     model = ocamlbuild.build_driver("chunkmodel", "Extract/ChunkExtract.v", "chunkmodel.ml", "chunk_driver.ml")
@@ -104,115 +104,119 @@ def run(chk):
         plan.append((mode, rnd.choice(CORRUPTIONS[mode]), rnd.choice(sizes), rnd.random() < 0.3))
 
     results, mlines = [], []
-    with gw.Site({"iam": False}, name="c06") as site:
-        g = site.gateway(gwbin)
-        cl = s3c.Client(g.port, "root", "rootsecret")
-        r0 = cl.req("PUT", "/bk1")
-        chk.require(r0.status == 200, "c06:setup:create-bucket", "CreateBucket answered %s" % r0)
-        for idx, (mode, cor, size, part) in enumerate(plan):
-            if size == 0 and (cor.startswith("flip") or cor in ("declared-less", "truncate")):
-                cor = "none"          # nothing to corrupt in an empty payload
-            c = build_case(rnd, mode, cor, size)
-            cor = c["corruption"]
-            P, chunks = c["payload"], c["chunks"]
-            key = "k%04d" % idx
-            old = None
-            path, query = "/bk1/" + key, {}
-            if part:
-                r = cl.req("POST", path, query={"uploads": ""})
-                uid = r.xml().findtext("UploadId")
-                query = {"partNumber": "1", "uploadId": uid}
-                if rnd.random() < 0.5:
-                    old = b"OLDPART" * 3
-                    r0 = cl.req("PUT", path, query=query, body=old)
-                    chk.require(r0.status == 200, "c06:valid-upload-rejected-or-altered:plain", "a plain valid UploadPart of %d bytes answered %s" % (len(old), r0))
-            elif rnd.random() < 0.5:
-                old = b"OLD-CONTENT-%d" % idx
-                r0 = cl.req("PUT", path, body=old)
-                chk.require(r0.status == 200, "c06:valid-upload-rejected-or-altered:plain", "a plain valid PutObject of %d bytes answered %s" % (len(old), r0))
-            headers = {}
-            dexp = P                       # what the harness believes the decoded bytes are
-            declared = len(P)
-            md5v = base64.b64encode(hashlib.md5(P).digest()).decode()
-            if cor == "wrong-md5": md5v = wrong_b64(md5v)
-            if c["use_md5"]: headers["Content-MD5"] = md5v
-            ckv = None
-            if c["algo"]:
-                ckv = cksum(c["algo"], P)
-                if cor == "wrong-cksum": ckv = wrong_b64(ckv)
-                headers["x-amz-checksum-" + c["algo"]] = ckv
-            sha_hdr = None
-            if mode in ("plain", "plain-unsigned"):
-                body = P
-                if cor.startswith("flip-body") and P:
-                    b = bytearray(P); b[rnd.randrange(len(P))] ^= 0x40; body = bytes(b)
-                dexp = body
-                if mode == "plain":
-                    sha_hdr = hashlib.sha256(P).hexdigest()
-                    if cor == "wrong-sha256": sha_hdr = hashlib.sha256(P + b"x").hexdigest()
-                    resp = cl.req("PUT", path, query=query, body=P, send_body=body, headers=headers, payload_hash=sha_hdr)
-                else:
-                    resp = cl.req("PUT", path, query=query, body=P, send_body=body, headers=headers, payload_hash="UNSIGNED-PAYLOAD")
-                wire, seed, keyb, stsP, stsT = body, b"", b"", b"", b""
-                declared = len(body)
-            else:
-                trailer = "crc32" if mode in ("signed-trailer", "unsigned-trailer") else None
-                send_chunks = list(chunks)
-                if cor == "extra-chunk": send_chunks = chunks + [b"EXTRA" * 7]
-                if cor == "declared-more": declared = len(P) + 5
-                if cor == "declared-less" and P: declared = len(P) - 1
-                headers.update({"x-amz-decoded-content-length": str(declared), "content-encoding": "aws-chunked"})
-                if trailer: headers["x-amz-trailer"] = "x-amz-checksum-crc32"
-                info = {}
-                def make_body(sig, k, amzdate, d8, region, send_chunks=send_chunks, trailer=trailer, cor=cor, mode=mode, info=info):
-                    if mode == "unsigned-trailer":
-                        b = chunkenc.encode_unsigned(send_chunks, "crc32")
+    n_side = len([1 for m in MODES for c_ in set(CORRUPTIONS[m])]) * 2 + 16
+    for label, cfg, pl, base in (("xattr", {"iam": False}, plan, 0), ("sidecar", {"iam": False, "meta": "sidecar"}, plan[:n_side], len(plan))):
+        with gw.Site(cfg, name="c06") as site:
+            g = site.gateway(gwbin)
+            cl = s3c.Client(g.port, "root", "rootsecret")
+            r0 = cl.req("PUT", "/bk1")
+            chk.require(r0.status == 200, "c06:setup:create-bucket", "CreateBucket answered %s" % r0)
+            for idx, (mode, cor, size, part) in enumerate(pl, start=base):
+                if size == 0 and (cor.startswith("flip") or cor in ("declared-less", "truncate")):
+                    cor = "none"          # nothing to corrupt in an empty payload
+                c = build_case(rnd, mode, cor, size)
+                cor = c["corruption"]
+                P, chunks = c["payload"], c["chunks"]
+                key = "k%04d" % idx
+                old = None
+                path, query = "/bk1/" + key, {}
+                if part:
+                    r = cl.req("POST", path, query={"uploads": ""})
+                    uid = r.xml().findtext("UploadId")
+                    query = {"partNumber": "1", "uploadId": uid}
+                    if rnd.random() < 0.5:
+                        old = b"OLDPART" * 3
+                        r0 = cl.req("PUT", path, query=query, body=old)
+                        chk.require(r0.status == 200, "c06:valid-upload-rejected-or-altered:plain", "a plain valid UploadPart of %d bytes answered %s" % (len(old), r0))
+                elif rnd.random() < 0.5:
+                    old = b"OLD-CONTENT-%d" % idx
+                    r0 = cl.req("PUT", path, body=old, headers={"content-type": "old/type", "x-amz-meta-old": "1"})
+                    chk.require(r0.status == 200, "c06:valid-upload-rejected-or-altered:plain", "a plain valid PutObject of %d bytes answered %s" % (len(old), r0))
+                headers = {} if part else {"content-type": "new/type", "x-amz-meta-new": "1"}
+                dexp = P                       # what the harness believes the decoded bytes are
+                declared = len(P)
+                md5v = base64.b64encode(hashlib.md5(P).digest()).decode()
+                if cor == "wrong-md5": md5v = wrong_b64(md5v)
+                if c["use_md5"]: headers["Content-MD5"] = md5v
+                ckv = None
+                if c["algo"]:
+                    ckv = cksum(c["algo"], P)
+                    if cor == "wrong-cksum": ckv = wrong_b64(ckv)
+                    headers["x-amz-checksum-" + c["algo"]] = ckv
+                sha_hdr = None
+                if mode in ("plain", "plain-unsigned"):
+                    body = P
+                    if cor.startswith("flip-body") and P:
+                        b = bytearray(P); b[rnd.randrange(len(P))] ^= 0x40; body = bytes(b)
+                    dexp = body
+                    if mode == "plain":
+                        sha_hdr = hashlib.sha256(P).hexdigest()
+                        if cor == "wrong-sha256": sha_hdr = hashlib.sha256(P + b"x").hexdigest()
+                        resp = cl.req("PUT", path, query=query, body=P, send_body=body, headers=headers, payload_hash=sha_hdr)
                     else:
-                        b = chunkenc.encode_signed(send_chunks, k, sig, trailer, amzdate, d8, region)
-                    info.update({"key": k, "stsP": chunkenc.sts_prefix("AWS4-HMAC-SHA256-PAYLOAD", amzdate, d8, region).encode(),
-                                 "stsT": chunkenc.sts_prefix("AWS4-HMAC-SHA256-TRAILER", amzdate, d8, region).encode()})
-                    bb = bytearray(b)
-                    if cor == "flip-data" and send_chunks:
-                        first = b.index(b"\r\n") + 2
-                        bb[first + rnd.randrange(len(send_chunks[0]))] ^= 0x40
-                    elif cor == "wrong-chunk-sig":
-                        i = b.index(b"chunk-signature=") + 16; bb[i] = ord("0") if bb[i] != ord("0") else ord("1")
-                    elif cor == "wrong-trailer":
-                        i = b.rindex(b"x-amz-checksum-crc32:") + 21; bb[i] = ord("B") if bb[i] != ord("B") else ord("C")
-                    elif cor == "wrong-trailer-sig":
-                        i = b.rindex(b"x-amz-trailer-signature:") + 24; bb[i] = ord("0") if bb[i] != ord("0") else ord("1")
-                    elif cor == "truncate":
-                        cutat = b.index(b"\r\n", b.index(b"\r\n") + 2) + 2 if send_chunks else max(len(b) - 3, 0)
-                        bb = bb[:cutat]
-                    elif cor == "drop-final":
-                        bb = bb[:b.rindex(b"0;chunk-signature=")]
-                    return bytes(bb)
-                ptype = "STREAMING-UNSIGNED-PAYLOAD-TRAILER" if mode == "unsigned-trailer" else (
-                    "STREAMING-AWS4-HMAC-SHA256-PAYLOAD-TRAILER" if trailer else "STREAMING-AWS4-HMAC-SHA256-PAYLOAD")
-                resp, seedsig = cl.req_streaming("PUT", path, make_body, query=query, headers=headers, payload_type=ptype)
-                seed, keyb, stsP, stsT = seedsig.encode(), info["key"], info["stsP"], info["stsT"]
-                dexp = b"".join(send_chunks)
-            # observe the key afterwards
-            if part:
-                lp = cl.req("GET", path, query={"uploadId": query["uploadId"]})
-                x = lp.xml()
-                parts = [(p.findtext("Size"), (p.findtext("ETag") or "").strip('"')) for p in x.findall("Part")] if x is not None else []
-                after = ("part", parts[0]) if parts else ("part", None)
-                before_state = ("part", (str(len(old)), hashlib.md5(old).hexdigest())) if old is not None else ("part", None)
-            else:
-                gr = cl.req("GET", path)
-                after = ("obj", gr.body) if gr.status == 200 else ("obj", None)
-                before_state = ("obj", old)
-            results.append({"idx": idx, "mode": mode, "corruption": cor, "size": size, "part": part, "status": resp.status, "code": resp.code,
-                            "had_old": old is not None, "after": after, "before": before_state, "md5": c["use_md5"], "algo": c["algo"],
-                            "declared": declared, "dexp": dexp, "alive": g.alive()})
-            if not g.alive():
-                chk.fail("c06:gateway-died", "the gateway process died on a %s upload with corruption %s" % (mode, cor), results[-1] | {"dexp": None, "log": g.log_tail(1500)})
-                g = site.gateway(gwbin); cl = s3c.Client(g.port, "root", "rootsecret")
-            # model line (only when we know the exact wire bytes)
-            wire_sent = getattr(resp, "wire", None)
-            mlines.append((idx, mode, cor, wire_sent, sha_hdr, md5v if c["use_md5"] else None, c["algo"], ckv, declared, seed, keyb, stsP, stsT, dexp))
-        chk.tie("gateway still running after the uploads", g.alive(), g.log_tail())
+                        resp = cl.req("PUT", path, query=query, body=P, send_body=body, headers=headers, payload_hash="UNSIGNED-PAYLOAD")
+                    wire, seed, keyb, stsP, stsT = body, b"", b"", b"", b""
+                    declared = len(body)
+                else:
+                    trailer = "crc32" if mode in ("signed-trailer", "unsigned-trailer") else None
+                    send_chunks = list(chunks)
+                    if cor == "extra-chunk": send_chunks = chunks + [b"EXTRA" * 7]
+                    if cor == "declared-more": declared = len(P) + 5
+                    if cor == "declared-less" and P: declared = len(P) - 1
+                    headers.update({"x-amz-decoded-content-length": str(declared), "content-encoding": "aws-chunked"})
+                    if trailer: headers["x-amz-trailer"] = "x-amz-checksum-crc32"
+                    info = {}
+                    def make_body(sig, k, amzdate, d8, region, send_chunks=send_chunks, trailer=trailer, cor=cor, mode=mode, info=info):
+                        if mode == "unsigned-trailer":
+                            b = chunkenc.encode_unsigned(send_chunks, "crc32")
+                        else:
+                            b = chunkenc.encode_signed(send_chunks, k, sig, trailer, amzdate, d8, region)
+                        info.update({"key": k, "stsP": chunkenc.sts_prefix("AWS4-HMAC-SHA256-PAYLOAD", amzdate, d8, region).encode(),
+                                     "stsT": chunkenc.sts_prefix("AWS4-HMAC-SHA256-TRAILER", amzdate, d8, region).encode()})
+                        bb = bytearray(b)
+                        if cor == "flip-data" and send_chunks:
+                            first = b.index(b"\r\n") + 2
+                            bb[first + rnd.randrange(len(send_chunks[0]))] ^= 0x40
+                        elif cor == "wrong-chunk-sig":
+                            i = b.index(b"chunk-signature=") + 16; bb[i] = ord("0") if bb[i] != ord("0") else ord("1")
+                        elif cor == "wrong-trailer":
+                            i = b.rindex(b"x-amz-checksum-crc32:") + 21; bb[i] = ord("B") if bb[i] != ord("B") else ord("C")
+                        elif cor == "wrong-trailer-sig":
+                            i = b.rindex(b"x-amz-trailer-signature:") + 24; bb[i] = ord("0") if bb[i] != ord("0") else ord("1")
+                        elif cor == "truncate":
+                            cutat = b.index(b"\r\n", b.index(b"\r\n") + 2) + 2 if send_chunks else max(len(b) - 3, 0)
+                            bb = bb[:cutat]
+                        elif cor == "drop-final":
+                            bb = bb[:b.rindex(b"0;chunk-signature=")]
+                        return bytes(bb)
+                    ptype = "STREAMING-UNSIGNED-PAYLOAD-TRAILER" if mode == "unsigned-trailer" else (
+                        "STREAMING-AWS4-HMAC-SHA256-PAYLOAD-TRAILER" if trailer else "STREAMING-AWS4-HMAC-SHA256-PAYLOAD")
+                    resp, seedsig = cl.req_streaming("PUT", path, make_body, query=query, headers=headers, payload_type=ptype)
+                    seed, keyb, stsP, stsT = seedsig.encode(), info["key"], info["stsP"], info["stsT"]
+                    dexp = b"".join(send_chunks)
+                # observe the key afterwards
+                if part:
+                    lp = cl.req("GET", path, query={"uploadId": query["uploadId"]})
+                    x = lp.xml()
+                    parts = [(p.findtext("Size"), (p.findtext("ETag") or "").strip('"')) for p in x.findall("Part")] if x is not None else []
+                    after = ("part", parts[0]) if parts else ("part", None)
+                    before_state = ("part", (str(len(old)), hashlib.md5(old).hexdigest())) if old is not None else ("part", None)
+                else:
+                    gr = cl.req("GET", path)
+                    # the key's state: bytes, ETag, content type and user metadata together
+                    after = ("obj", (gr.body, (gr.headers.get("etag") or "").strip('"'), gr.headers.get("content-type"),
+                                     tuple(sorted(e2e.meta_of(gr.headers).items())))) if gr.status == 200 else ("obj", None)
+                    before_state = ("obj", (old, hashlib.md5(old).hexdigest(), "old/type", (("old", "1"),)) if old is not None else None)
+                results.append({"idx": idx, "config": label, "mode": mode, "corruption": cor, "size": size, "part": part, "status": resp.status, "code": resp.code,
+                                "had_old": old is not None, "after": after, "before": before_state, "md5": c["use_md5"], "algo": c["algo"],
+                                "declared": declared, "dexp": dexp, "alive": g.alive()})
+                if not g.alive():
+                    chk.fail("c06:gateway-died", "the gateway process died on a %s upload with corruption %s" % (mode, cor), results[-1] | {"dexp": None, "log": g.log_tail(1500)})
+                    g = site.gateway(gwbin); cl = s3c.Client(g.port, "root", "rootsecret")
+                # model line (only when we know the exact wire bytes)
+                wire_sent = getattr(resp, "wire", None)
+                mlines.append((idx, mode, cor, wire_sent, sha_hdr, md5v if c["use_md5"] else None, c["algo"], ckv, declared, seed, keyb, stsP, stsT, dexp))
+            chk.tie("gateway still running after the uploads", g.alive(), g.log_tail())
 
     # ---- model predictions
     lines = []
@@ -234,7 +238,8 @@ def run(chk):
         chk.count("%s:%s:%s" % (r["mode"], r["corruption"], "commit" if committed else "fail"))
         chk.traces += 1
         view = {k: v for k, v in r.items() if k not in ("dexp", "after", "before")}
-        view["after_len"] = None if r["after"][1] is None else (len(r["after"][1]) if r["after"][0] == "obj" else r["after"][1])
+        view["after_state"] = None if r["after"][1] is None else ((len(r["after"][1][0]),) + r["after"][1][1:] if r["after"][0] == "obj" else r["after"][1])
+        view["config"] = r["config"]
         # R3: Spec on the observation
         dexp = r["dexp"]
         clean = r["corruption"] == "none"
@@ -243,13 +248,13 @@ def run(chk):
         else:
             new_state, old_state = r["after"][1], r["before"][1]
         if r["after"][0] == "obj":
-            want_new = dexp
+            want_new = (dexp, hashlib.md5(dexp).hexdigest(), "new/type", (("new", "1"),))
         else:
             want_new = (str(len(dexp)), hashlib.md5(dexp).hexdigest())
         if clean:
             if not committed or new_state != want_new:
                 chk.fail("c06:valid-upload-rejected-or-altered:%s" % r["mode"], "a valid %s upload of %d bytes answered %d %s; the key then holds %s" % (
-                    r["mode"], r["size"], r["status"], r["code"], "the uploaded bytes" if new_state == want_new else "something else"), view)
+                    r["mode"], r["size"], r["status"], r["code"], "the uploaded object" if new_state == want_new else "something else: %r" % (((len(new_state[0]),) + new_state[1:]) if isinstance(new_state, tuple) and isinstance(new_state[0], bytes) else new_state,)), view)
         else:
             if committed:
                 chk.fail("c06:corrupt-upload-committed:%s:%s" % (r["mode"], r["corruption"]),
@@ -263,7 +268,8 @@ def run(chk):
         mk, _, mv = m.partition(" ")
         if mk == "C":
             stored = bytes.fromhex(mv) if mv != "-" else b""
-            ok = committed and (new_state == (stored if r["after"][0] == "obj" else (str(len(stored)), hashlib.md5(stored).hexdigest())))
+            ok = committed and new_state is not None and ((new_state[0] if r["after"][0] == "obj" else new_state) ==
+                                                          (stored if r["after"][0] == "obj" else (str(len(stored)), hashlib.md5(stored).hexdigest())))
         else:
             ok = (not committed) and new_state == old_state and code_matches(mv, r["status"], r["code"])
         if not ok:
